@@ -24,6 +24,8 @@
 #include <map>
 #include <set>
 #include <deque>
+#include <vector>
+#include <memory>
 #include <thread>
 #include <mutex>
 #include <algorithm>
@@ -66,6 +68,16 @@ struct ThreadPool::Data {
     size_t undo_task_peak_num_ = 0;
 
     ObjectPool<Task> task_pool{64};
+
+    /**
+     * 自行退出的工作线程：已从 threads_cabinet 取出、正等待 main_loop 去 join() 的线程对象。
+     * cleanup() 也必须 join() 它们；排队中的 join 任务可能比 ThreadPool 活得更久，所以与之共享
+     */
+    struct ExitingThreads {
+        std::mutex lock;
+        std::vector<std::thread*> threads;
+    };
+    std::shared_ptr<ExitingThreads> exiting_threads = std::make_shared<ExitingThreads>();
 };
 
 /**
@@ -271,6 +283,17 @@ void ThreadPool::cleanup()
         delete t;
     }
 
+    //! 自行退出、尚未被 main_loop join() 的线程也要等，否则 cleanup() 返回时它们可能还在运行
+    std::vector<std::thread*> exiting_vec;
+    {
+        std::lock_guard<std::mutex> lg(d_->exiting_threads->lock);
+        exiting_vec.swap(d_->exiting_threads->threads);
+    }
+    for (auto t : exiting_vec) {
+        t->join();
+        delete t;
+    }
+
     d_->is_ready = false;
 }
 
@@ -374,8 +397,23 @@ void ThreadPool::threadProc(ThreadToken thread_token)
         auto t = d_->threads_cabinet.free(thread_token);
         //! 为空说明 cleanup() 已经把本线程对象取走并会负责 join()，这里不能再委托
         if (t != nullptr) {
+            auto exiting = d_->exiting_threads;
+            {
+                std::lock_guard<std::mutex> lg(exiting->lock);
+                exiting->threads.push_back(t);
+            }
             d_->wp_loop->runInLoop(
-                [t]{ t->join(); delete t; },
+                [exiting, t]{
+                    {
+                        std::lock_guard<std::mutex> lg(exiting->lock);
+                        auto iter = std::find(exiting->threads.begin(), exiting->threads.end(), t);
+                        if (iter == exiting->threads.end())
+                            return; //! cleanup() 已经 join() 并 delete 了
+                        exiting->threads.erase(iter);
+                    }
+                    t->join();
+                    delete t;
+                },
                 "ThreadPool::threadProc, join and delete it"
             );
         }
